@@ -718,3 +718,16 @@ package db
 //@   assert before call#1 GetCollectionByID: arg1 == mapget(existingSchemaByName, schema.Name).VersionID
 //@   modifies failed, colSaves
 //@   tags C19
+//@
+//@ // ===== C14: what a switch of the node access control status persists is the status the running node has
+//@ func (*DB).ReEnableNAC
+//@   assert before call#1 saveNodeACPDesc: db.nodeACP.NodeACPDesc.Status == client.NACEnabled && arg0 == db
+//@   tags C14
+//@ func (*DB).DisableNAC
+//@   assert before call#1 saveNodeACPDesc: db.nodeACP.NodeACPDesc.Status == client.NACDisabledTemporarily && arg0 == db
+//@   tags C14
+//@ func (*DB).saveNodeACPDesc
+//@   assert before call#1 Marshal: arg0 == box(db.nodeACP.NodeACPDesc)
+//@   assert before call#1 Set: sameslice(arg3, res(Marshal, 1, 0)) && res(Marshal, 1, 1) == nil
+//@   tags C14
+//@ apply Forward: (*DB).saveNodeACPDesc, (*DB).ReEnableNAC, (*DB).DisableNAC
